@@ -31,7 +31,7 @@ REAL = ["bec2format.bf3file (parse_bf2_file, bf2_import, exec_bf2instrs, bf2_unp
         "annotations, pfid2_filter_to_str)", "bec2format.hwcids"]
 STUBS = ["medium: SimFS (text layer, CRLF)", "BF2 generator + ground truth + RefBF2 (sim/bf2gen.py)", "filter-expression "
          "evaluator (this file)"]
-PROBES = ["page-crossing", "gap-before-last-line", "gap-at-first-line", "lost-last-line", "dup-line", "swap-lines",
+PROBES = ["whole-page-lost", "middle-page-lost", "page-crossing", "gap-before-last-line", "gap-at-first-line", "lost-last-line", "dup-line", "swap-lines",
           "ignored-section", "no-marker", "blob-gap-rejected", "bf2compat-faulted", "memimage-helper", "filter-expression",
           "three-types-sorted", "crlf"]
 ASSUMPTIONS = ["hardware-id names used in comparisons are transcribed into sim/bf2gen.py"]
@@ -40,13 +40,24 @@ ASSUMPTIONS = ["hardware-id names used in comparisons are transcribed into sim/b
 def gen(st, tier):
     w = st["workload"]
     f = st["faults"]
-    big = w.random() < (0.04 if tier == "quick" else 0.08)
-    spec = bf2gen.gen_spec(w, max_image=(70000 if w.random() < 0.7 else 200000) if big else w.choice([60, 300, 1500]))
+    big = w.random() < (0.05 if tier == "quick" else 0.08)
+    spec = bf2gen.gen_spec(w, max_image=(70000 if w.random() < 0.5 else 200000) if big else w.choice([60, 300, 1500]))
+    if big and w.random() < 0.5:
+        # make sure one section really spans three or more 64 KiB pages
+        for sec in spec["sections"]:
+            if bf2gen.PAGES[sec["tt"]] >= 4:
+                sec["image"]["len"] = w.randint(131073, 200000)
+                sec["ls"] = w.choice([128, 250, 250])
+                break
     fault = None
     r = f.random()
     if r < 0.7:
-        kind = f.choice(["lost", "lost", "lost", "dup", "swap"])
-        fault = [kind, f.randrange(len(spec["sections"])), f.choice(["first", "last", "last-1", "second", "page", "frac"]),
+        kind = f.choice(["lost", "lost", "lost", "dup", "swap", "lostpage"])
+        si = f.randrange(len(spec["sections"]))
+        multi = [k for k, sec in enumerate(spec["sections"]) if sec["image"]["len"] > 0x10000]
+        if multi and f.random() < 0.6:
+            kind, si = "lostpage", f.choice(multi)
+        fault = [kind, si, f.choice(["first", "last", "last-1", "second", "page", "frac"]),
                  f.random(), f.random()]
     return {"bf2": spec, "fault": fault, "via": w.choice(["path", "stream"])}
 
@@ -183,7 +194,25 @@ def run(case):
             lines = [items[k][3] for k in idx]
             if len(idx) >= 1:
                 i = _pick(lines, where, fr1)
-                if kind == "lost":
+                if kind == "lostpage":
+                    types = sorted({ln["type"] for ln in lines})
+                    if len(types) < 2:
+                        kind = "lost"
+                    else:
+                        # a whole 64 KiB page of data lines is gone (a lost extent of the medium)
+                        # never the first page: without it the group starts with another tag type and
+                        # is a different (unmapped) section altogether
+                        victim = types[1 + int(fr1 * (len(types) - 1)) % (len(types) - 1)]
+                        for k in reversed(idx):
+                            if items[k][3]["type"] == victim:
+                                del items[k]
+                        out.fired["page-lost"] += 1
+                        out.probes["whole-page-lost"] += 1
+                        if victim != types[-1]:
+                            out.probes["middle-page-lost"] += 1
+                if kind == "lostpage":
+                    pass
+                elif kind == "lost":
                     if len(idx) == 1:
                         fault = None   # losing the only line leaves an empty group: not this property's subject
                     else:
